@@ -21,6 +21,9 @@ package seqio
 //                with an empty value; keywords none / one / five; source, organism,
 //                taxonomy short and wrapped; 0..3 references with any subset of AUTHORS, CONSRTM,
 //                TITLE, JOURNAL, PUBMED, REMARK and range info; 0..2 comments (one multi-line)
+//   extra        uncommon fields: names PRIMARY, DBSOURCE and 3, 10, 11, 12 upper-case letters
+//                (12 fills the name column) x three values (one line, two lines, starting with a
+//                digit), alone and after a second uncommon field
 //   features     0..4 features; keys source, gene, CDS, misc_feature; locations: range, partial
 //                ranges, point, between-site, complement, join, order, complement(join);
 //                qualifiers: quoted, literal (/codon_start=1), toggle (/pseudo), a 150-character
@@ -607,6 +610,21 @@ func TestVerifBoundedGenBank(t *testing.T) {
 		f := vgBaseFields()
 		f.Comments = v
 		check(fmt.Sprintf("comments#%d", i), vgMake(f, vgBaseTable(61), 61))
+	}
+	// dimension: extra (uncommon) fields: names of 3..12 upper-case letters (12 fills the name
+	// column, no padding follows), one- and two-line values; a value after a 12-letter name must
+	// not begin with an upper-case letter (it would read as part of the name: format ambiguity)
+	extraNames := []string{"PRIMARY", "DBSOURCE", "ABC", "ABCDEFGHIJ", "ABCDEFGHIJK", "ABCDEFGHIJKL"}
+	extraValues := []string{"value of an uncommon field", "first line of the value\nsecond line of the value", "1-100 of the record"}
+	for i, nm := range extraNames {
+		for j, v := range extraValues {
+			f := vgBaseFields()
+			f.Extra = []ExtraField{GenBankExtraField(nm, v)}
+			check(fmt.Sprintf("extra#%d.%d", i, j), vgMake(f, vgBaseTable(61), 61))
+			f = vgBaseFields()
+			f.Extra = []ExtraField{GenBankExtraField("PRIMARY", "refseq span"), GenBankExtraField(nm, v)}
+			check(fmt.Sprintf("extra-pair#%d.%d", i, j), vgMake(f, vgBaseTable(61), 61))
+		}
 	}
 	// dimension: feature table
 	long := strings.TrimSpace(strings.Repeat("a long qualifier value ", 7))
